@@ -323,6 +323,38 @@ pub fn run(ctx: &mut Ctx) {
             }
         }
     }
+    // ---- keys left out of a settings file get the values a built configuration has (the documented defaults): the two are
+    // written back as TOML and compared key by key, section by section -------------------------------------------------------
+    {
+        use trusttunnel::settings::*;
+        let minimal = "listen_address = \"127.0.0.1:1\"\n[listen_protocols]\n[listen_protocols.http1]\n[listen_protocols.http2]\n[listen_protocols.quic]\n[icmp]\n[metrics]\n";
+        let built = Settings::builder()
+            .listen_address(("127.0.0.1", 1))
+            .unwrap()
+            .listen_protocols(ListenProtocolSettings {
+                http1: Some(Http1Settings::builder().build()),
+                http2: Some(Http2Settings::builder().build()),
+                quic: Some(QuicSettings::builder().build()),
+            })
+            // (the builder of the ICMP section starts from an empty interface name; the file's default is the documented one)
+            .icmp(IcmpSettings::builder().interface_name(IcmpSettings::default_interface_name()).build().unwrap())
+            .metrics(MetricsSettings::builder().build().unwrap())
+            .build();
+        match (toml::from_str::<Settings>(minimal), built) {
+            (Ok(from_file), Ok(built)) => match (toml::to_string(&from_file), toml::to_string(&built)) {
+                (Ok(a), Ok(b)) => {
+                    let (la, lb): (Vec<&str>, Vec<&str>) = (a.lines().collect(), b.lines().collect());
+                    let diff: Vec<String> = la.iter().filter(|l| !lb.contains(l)).map(|l| format!("file: {}", l)).chain(lb.iter().filter(|l| !la.contains(l)).map(|l| format!("default: {}", l))).collect();
+                    if !diff.is_empty() {
+                        ctx.oracle_failure("settings_file_defaults", &format!("a settings file that leaves every optional key out does not mean the documented defaults: {}", diff.join(" | ")));
+                    }
+                    ctx.stat_add("settings_defaults_compared_keys", la.len() as u64);
+                }
+                (a, b) => ctx.notes.push(format!("settings could not be written back as TOML ({:?} / {:?}): defaults not compared", a.err().map(|e| e.to_string()), b.err().map(|e| e.to_string()))),
+            },
+            (a, b) => ctx.oracle_failure("settings_file_defaults", &format!("minimal settings file: read {:?}, built {:?}", a.err().map(|e| e.to_string()), b.err().map(|e| format!("{:?}", e)))),
+        }
+    }
     // TLS hosts: none, duplicate, unloadable
     let garbage = write_file(&dir, "garbage.pem", "not a pem");
     let mk = |name: &str, pem: &str| TlsHostInfo { hostname: name.into(), cert_chain_path: pem.into(), private_key_path: pem.into(), allowed_sni: vec![] };
